@@ -24,7 +24,7 @@ LEVEL_TEXT = (
     "on a private clone of the environment, that the environment at exit contains the effects of every child (nothing "
     "lost) but none of them unconditionally, that then/else never share a merge operand, that each match clause starts "
     "from a fresh clone, and that the environment is merged under the same condition wire as the panic record; for-each "
-    "bodies use the one shared environment. Not decided: the then/else operand order of mux_envs, and the mux tree of "
+    "bodies use the one shared environment; call arguments are all lowered before any parameter of the callee is bound (E7). Not decided: the then/else operand order of mux_envs, and the mux tree of "
     "indexed assignment (value level, belongs to C01).")
 LEVEL_NOTE = ("Trusted: rustc MIR and callee resolution; callee lowering functions obey the same protocol (each is "
               "analysed itself). The type checker checks function bodies in a fresh environment (C17), which is what makes "
